@@ -295,6 +295,71 @@ def make_init_responsibilities(n, K, xmax=1000):
                              "_m_step -> capture of the initial responsibilities"], theory="QF_NRA", timeout_ms=30000, max_paths=4000)
 
 
+def make_estep_mstep(n=2, K=1):
+    """one E-step followed by one M-step of the real mixture code with the component densities as arbitrary positive numbers (the
+    scipy pdf is a double returning symbolic values: densities of data in large units or many dimensions are tiny): the
+    responsibilities of every point must sum to one, the mixing weights must sum to one and the mean of a component whose *mixing
+    weight* is not negligible must lie inside the data's bounding box."""
+    import scipy.stats as _st
+    from vf.engine.arr import patched_attr
+
+    def harness(ctx: PathCtx):
+        xs = [real(ctx, f"x{i}", lo=-10 ** 6, hi=10 ** 6) for i in range(n)]
+        ctx.assume(xs[0].term() < xs[1].term())
+        dens = [[real(ctx, f"p{i}_{k}", lo=0, lo_strict=True, hi=10 ** 6) for k in range(K)] for i in range(n)]
+        calls = {"k": 0}
+
+        class PdfDouble:
+            @staticmethod
+            def pdf(X_, mean=None, cov=None, **kw):
+                k = calls["k"]
+                calls["k"] += 1
+                return sarr([dens[i][k % K] for i in range(n)])
+        gm = GaussianMixture(n_components=K, covariance_type="full")
+        X = sarr([[x] for x in xs])
+        sw = sarr([SymReal.const(Fraction(1, n))] * n)
+        mix = np.full(K, 1.0 / K)
+        with patched(cluster_mod, np=NpProxy(object_constructors=True)), patched_attr(_st, multivariate_normal=PdfDouble):
+            R = gm._e_step(X, mix, np.zeros((K, 1)), np.ones((K, 1, 1)))
+            weights, means, covs = gm._m_step(X, R, sw)
+        tiny = Fraction(1, 10 ** 9)
+        rows = [_sum([SymReal.lift(R[i][k]) for k in range(K)]) for i in range(n)]
+        ctx.check("responsibilities-of-every-point-sum-to-one(1e-9)", z3.And(*[z3.And(le(1 - tiny, r_), le(r_, 1 + tiny)) for r_ in rows]))
+        ctx.check("weights-sum-to-one", eq(_sum([SymReal.lift(w_) for w_ in weights]), 1))
+        conds = []
+        for k in range(K):
+            heavy = le(Fraction(1, 1000), SymReal.lift(weights[k]))
+            mk = SymReal.lift(means[k][0])
+            span = xs[-1] - xs[0]
+            # the M-step's own regulariser (mass + 1e-10 in the denominator) moves the mean of a component of mass >= 1e-3 by a relative
+            # 1e-7 at most: 0.1 for |x| <= 1e6 (the exact-real M-step obligations state the same tolerance as a regularised convex combination)
+            slack = Fraction(1, 5)
+            conds.append(z3.Implies(heavy, z3.And(le(xs[0] - slack, mk), le(mk, xs[-1] + slack))))
+        ctx.check("mean-of-a-component-with-non-negligible-weight-is-inside-the-bounding-box", z3.And(*conds))
+        return None
+
+    def replay(m, label, v):
+        import warnings as _w
+        rng = np.random.RandomState(0)
+        for dim, sigma in ((6, 1e3), (6, 3e3), (3, 1e5), (1, 1e12)):
+            X = 50 * sigma + sigma * rng.randn(300, dim)
+            with _w.catch_warnings(), np.errstate(all="ignore"):
+                _w.simplefilter("ignore")
+                g = GaussianMixture(n_components=1, random_state=1).fit(X)
+            mean, w = g.means_[0], g.weights_
+            inside = bool(np.all((mean >= X.min(0)) & (mean <= X.max(0))))
+            okw = bool(np.all(np.isfinite(w)) and abs(float(w.sum()) - 1) < 1e-8)
+            if not (inside and okw):
+                return {"reproduced": True, "signature": "GaussianMixture.fit:responsibilities-do-not-sum-to-one:low-density-data", "payload": {"dim": dim, "sigma": sigma, "weights": np.asarray(w).tolist(), "mean0": float(mean[0]), "data_mean0": float(X.mean(0)[0])},
+                        "what": f"GaussianMixture(n_components=1).fit on one {dim}-d Gaussian blob with sigma {sigma:g} around {50 * sigma:g}: weights {np.asarray(w).tolist()}, mean[0] = {float(mean[0]):.6g} "
+                                f"(data mean {float(X.mean(0)[0]):.6g}, box [{float(X.min(0)[0]):.6g}, {float(X.max(0)[0]):.6g}]): the E-step divides by (row sum + 1e-10), densities here are far below 1e-10"}
+        return {"reproduced": False, "what": "single blobs in large units are fitted with the mean inside the box"}
+
+    return Obligation(f"estep-mstep-n{n}-K{K}", harness, replay=replay, encodes=[GaussianMixture._e_step, GaussianMixture._m_step],
+                      bounds=f"n={n} points in [-1e6, 1e6], d=1, K={K}, uniform sample weights, component densities arbitrary in (0, 1e6]",
+                      stubs=["scipy.stats.multivariate_normal.pdf -> symbolic positive densities", "np.zeros -> object arrays"], theory="QF_NRA", timeout_ms=30000)
+
+
 def make_mstep_fp(n=2):
     """bit-precise: the 'full' covariance of one component in d=1 is never negative, for ALL doubles in a wide range
     (catastrophic cancellation in a moment-difference formula would show up here)."""
@@ -472,7 +537,7 @@ def obligations(tier):
     # make_mstep_rounding decides the same clause in the standard round-off model instead (sound for the real arithmetic)
     obs = [make_mstep(2, 1, 2, "full"), make_mstep(2, 2, 2, "diag"), make_mstep(2, 2, 1, "full"), make_mstep(3, 1, 1, "full"), make_replicas(1, "full"),
            make_hier(6, 1, True), make_hier(5, 2, False), make_hier(8, 2, False, contiguous=True),
-           make_hier(4, 1, True, refit=True), make_mstep_rounding(2, "full"), make_init_responsibilities(3, 2)]
+           make_hier(4, 1, True, refit=True), make_mstep_rounding(2, "full"), make_init_responsibilities(3, 2), make_estep_mstep(2, 1), make_estep_mstep(2, 2)]
     if tier == "thorough":
         # (n=3 with K=2 or d=2: the PSD query is undecided by nlsat within 30 s - not scheduled)
         obs += [make_mstep(2, 2, 2, "full"), make_mstep(3, 1, 1, "diag"), make_replicas(2, "full"), make_replicas(1, "diag"),
